@@ -167,9 +167,7 @@ class ReqWorld(object):
             self.w.settle()
             if p.get('id0'):
                 # the state every connection is in after ~300 requests: stream id 0 is the next one handed out
-                for c in self.w.conns:
-                    if c.request_ids and 0 in c.request_ids:
-                        c.request_ids.rotate(-list(c.request_ids).index(0))
+                self.place_id0(p.get('id0_offset', 0))
             # from now on the explorer owns every application request and every task
             self.setup_conns = len(self.w.conns)
             self.server.hold = self._hold_with_use if p.get('hold_use') else self._hold
@@ -201,6 +199,13 @@ class ReqWorld(object):
 
     def close(self):
         self.w.__exit__()
+
+    def place_id0(self, offset=0):
+        """Put every connection's free stream ids in the order they have after a full cycle of the id queue,
+        with stream id 0 handed out to the (offset+1)-th request sent on the connection from now on."""
+        for c in self.w.conns:
+            if c.request_ids and 0 in c.request_ids and len(c.request_ids) > offset:
+                c.request_ids.rotate(offset - list(c.request_ids).index(0))
 
     # -- client operations
     def execute(self, tag, idempotent=None, timeout='default', **kw):
